@@ -85,13 +85,12 @@ Theorem model_passes_checker :
 Proof. exact model_satisfies_checker. Qed.
 Print Assumptions model_passes_checker.
 
-(* What the checker's acceptance means, independent of any model: after a request the reported pairs are
-   duplicate-free, name channels only, and are exactly the updated connection set ... *)
+(* What the checker's acceptance means, independent of any model: after a request the reported pairs
+   name channels only and are, as a set, exactly the updated connection set ... *)
 Theorem checker_sound_report :
   forall cf st e rep cnt st',
     check_step cf st (OEdit e) (ORep rep cnt) = Some st' ->
     c_R st' = rel_edit (cf_kind cf) (cf_n cf) (c_R st) e /\
-    NoDup rep /\
     (forall s r, In (s, r) rep -> 0 <= s < cf_n cf /\ 0 <= r < cf_n cf) /\
     (forall s r, 0 <= s < cf_n cf -> 0 <= r < cf_n cf -> (In (s, r) rep <-> c_R st' s r = true)).
 Proof. exact check_edit_sound. Qed.
